@@ -4,6 +4,8 @@ mod shm;
 mod ra;
 mod poller;
 mod world;
+mod crash;
+mod threads;
 mod wire;
 mod rng;
 mod util;
@@ -22,6 +24,7 @@ fn exec_line(line: &str) -> String {
         Some("gen") => shm::exec_gen(&toks),
         Some("sl") => ra::exec_sl(line),
         Some("world") => world::exec(line),
+        Some("crashpt") => crash::exec(&toks),
         Some("poll") => poller::exec(&toks, line).unwrap_or_else(|| "bad-op".into()),
         Some("slx") => ra::exec_slx(&toks),
         Some("slaba") => ra::exec_slaba(),
@@ -89,6 +92,16 @@ fn main() {
             let mut rng = rng::Rng::new(seed ^ 0xc01);
             for _ in 0..count { emit(world::gen_world(&mut rng)); }
         }
+        // C15: one scenario of the real thread_manager::run per process (needs a private /run)
+        Some("threads") => {
+            drop(emit);
+            let line = threads::run_scenario(&args[2..]);
+            writeln!(out, "{}", line).unwrap();
+            out.flush().unwrap();
+            // worker threads of a daemon that did not exit may still be alive
+            std::process::exit(if line.contains("=> returned") { 0 } else { 3 });
+        }
+        Some("crashgrid") => { for g in crash::grid() { emit(g); } }
         Some("slabagen") => { emit("slaba".to_string()); }
         Some("slxgen") => {
             // one full exhaustion of the retry budget + short scripted runs (more with `all`)
